@@ -25,7 +25,7 @@ ASSUMPTIONS = ['`<` is never followed by a letter, `/`, `!` or `?` (that would b
 
 # only unmatched halves of paired Markdown/CriticMarkup delimiters are used, so that two words can never form real markup between them
 PAYLOADS = ['<!--', '&', '<', '>', '"', "'", ' & ', ' < ', ' > ', '"><x y="', "'><x y='", '--', '-->', '<<}', '<<', '&#60;', '&amp;', '&lt;', '& #', '&&', '<>', '</', '<=',
-            '1 < 2 > 0', 'é中', '😀', 'tab\there', '\\)', '~>', '++}', '==}', 'a&b', 'x"y', "x'y", '<3', '&;', '& ;', '%', '\\']
+            '1 < 2 > 0', 'é中', '😀', 'tab\there', '\\)', '~>', '++}', '==}', 'a&b', 'x"y', "x'y", '<3', '&;', '& ;', '%', '\\', '&#x[;', '&#xZZ;', '&#x41;', '&#xg1;', '&#x_;']
 ATTR_PAYLOADS = ['&', '"', "'", '<', '>', 'a&b', 'x"y', "it's", '1<2', '">', "'>"]
 LANGS = ['python', 'c++', 'a"b', 'x&y', 'a<b', 'plain text']      # an apostrophe is not accepted in a fence info string (the line is then no fence opener)
 
